@@ -240,7 +240,7 @@ theorem wellformed_request_no_store_never_served_partial (sc : Scenario) (hcfg :
   obtain ⟨cc, hcc, hn⟩ := wellformed_lines_no_store_recognised lines h hex
   exact ⟨cc, by unfold Scenario.request1; simp only; rw [hl]; exact hcc, hn⟩
 
-/-! ### The statement read on the field lines as sent is false: counterexample -/
+/-! ### Before fix 3db3b18 (getCc joined the field lines first): labelled counterexample, conditional on the old form -/
 
 /-- `Cache-Control: x="a` / `Cache-Control: no-store` / `Cache-Control: max-age=3600` on a 200 with a Date. -/
 def quoteLeakScenario : Scenario where
@@ -274,7 +274,7 @@ theorem quote_leak_hides_no_store_counterexample : Gen.Reusable.ccParsedPerLine 
     (observe quoteLeakScenario).decision.answer = .cachePositively ∧
     (observe quoteLeakScenario).kind = .hit ∧ (observe quoteLeakScenario).seq = 1 := by decide
 
-/-! ### A 304 that carries no-store (three-request scenario) -/
+/-! ### A 304 that carries no-store (three-request scenario); before fix ec4c541: labelled counterexample, conditional on the old form -/
 
 /-- first response `max-age=0` with a Last-Modified (stored, stale at once) -/
 def notModifiedScenario : Scenario := { quoteLeakScenario with respCc := [[109, 97, 120, 45, 97, 103, 101, 61, 48]] }
@@ -298,6 +298,76 @@ theorem not_modified_forbidden_not_reused_partial (sc : Scenario) (nmCc : List B
   rw [hk]
   simp only [hflag, hcc, Bool.true_and]
   rcases h with h | h <;> simp [h]
+
+/-! ### Headline theorems for the tree as it is (getCc parses field line by field line; the 304 branch honours no-store) -/
+
+/-- the generated flags these theorems rest on; they stop checking if the source goes back to the older forms -/
+theorem tree_parses_per_line : Gen.Reusable.ccParsedPerLine = true := by decide
+theorem tree_honours_no_store_on_304 : Gen.Reusable.notModifiedHonoursNoStore = true := by decide
+
+/-- One well-formed field line is enough. If ANY Cache-Control field line of the message is a well-formed list (`Renders`)
+    with a no-store element, `getCc` sets no-store — whatever the other field lines are (malformed, unbalanced quotes,
+    arbitrary bytes), before or after it. -/
+theorem any_wellformed_line_no_store_recognised (vals : List Bytes) (v : Bytes) (es : List Bytes) (hv : v ∈ vals)
+    (hr : Renders v es) (hex : ∃ e ∈ es, itemType e = .noStore) : ∃ cc, getCc vals = some cc ∧ cc.noStore = true := by
+  unfold getCc
+  rw [tree_parses_per_line]
+  simp only [if_true]
+  obtain ⟨e, he, hty⟩ := hex
+  exact getCcPerLine_noStore vals ⟨v, hv, e, by rw [items_of_renders v es hr]; exact he, hty⟩
+
+theorem any_wellformed_line_private_recognised (vals : List Bytes) (v : Bytes) (es : List Bytes) (hv : v ∈ vals)
+    (hr : Renders v es) (hex : ∃ e ∈ es, itemType e = .priv) : ∃ cc, getCc vals = some cc ∧ cc.priv = true := by
+  unfold getCc
+  rw [tree_parses_per_line]
+  simp only [if_true]
+  obtain ⟨e, he, hty⟩ := hex
+  exact getCcPerLine_priv vals ⟨v, hv, e, by rw [items_of_renders v es hr]; exact he, hty⟩
+
+/-- The statement, first sentence (response side): with the stock settings, if one of the response's Cache-Control field
+    lines (as stored by the header parser) is a well-formed list with a no-store or private element, the second request is a
+    plain miss answered by the origin — for every other field line, status, date, method, credentials, second request. -/
+theorem response_sent_with_no_store_or_private_never_served (sc : Scenario) (hcfg : sc.cfg ≠ .overrides)
+    (v : Bytes) (es : List Bytes) (hv : v ∈ sc.respCc.map fieldValue) (hr : Renders v es)
+    (hex : ∃ e ∈ es, itemType e = .noStore ∨ itemType e = .priv) :
+    (observe sc).kind = .miss ∧ (observe sc).seq = 2 := by
+  apply forbidden_never_served_from_cache sc hcfg
+  left
+  obtain ⟨e, he, hty | hty⟩ := hex
+  · obtain ⟨cc, hcc, hn⟩ := any_wellformed_line_no_store_recognised _ v es hv hr ⟨e, he, hty⟩
+    exact ⟨cc, hcc, Or.inl hn⟩
+  · obtain ⟨cc, hcc, hn⟩ := any_wellformed_line_private_recognised _ v es hv hr ⟨e, he, hty⟩
+    exact ⟨cc, hcc, Or.inr hn⟩
+
+/-- The statement, first sentence (request side): same for a request one of whose Cache-Control field lines is a
+    well-formed list with a no-store element. -/
+theorem request_sent_with_no_store_never_served (sc : Scenario) (hcfg : sc.cfg ≠ .overrides)
+    (v : Bytes) (es : List Bytes) (hv : v ∈ sc.reqCc.map fieldValue) (hr : Renders v es)
+    (hex : ∃ e ∈ es, itemType e = .noStore) :
+    (observe sc).kind = .miss ∧ (observe sc).seq = 2 := by
+  apply forbidden_never_served_from_cache sc hcfg
+  right
+  obtain ⟨cc, hcc, hn⟩ := any_wellformed_line_no_store_recognised _ v es hv hr hex
+  exact ⟨cc, hcc, hn⟩
+
+/-- Three-request scenario: a revalidated entry whose 304 carries (in any well-formed field line) no-store or private is
+    not reused: the third request is a miss. -/
+theorem not_modified_with_no_store_not_reused (sc : Scenario) (nmCc : List Bytes) (hk : (observe sc).kind = .reval)
+    (v : Bytes) (es : List Bytes) (hv : v ∈ nmCc.map fieldValue) (hr : Renders v es)
+    (hex : ∃ e ∈ es, itemType e = .noStore ∨ itemType e = .priv) :
+    observeNotModified sc nmCc = (.reval, .miss) := by
+  obtain ⟨e, he, hty | hty⟩ := hex
+  · obtain ⟨cc, hcc, hn⟩ := any_wellformed_line_no_store_recognised _ v es hv hr ⟨e, he, hty⟩
+    exact not_modified_forbidden_not_reused_partial sc nmCc cc tree_honours_no_store_on_304 hk hcc (Or.inl hn)
+  · obtain ⟨cc, hcc, hn⟩ := any_wellformed_line_private_recognised _ v es hv hr ⟨e, he, hty⟩
+    exact not_modified_forbidden_not_reused_partial sc nmCc cc tree_honours_no_store_on_304 hk hcc (Or.inr hn)
+
+/-- the former witnesses now behave: `x="a` / `no-store` / `max-age=3600` is a miss, and the 304 with
+    `no-store, max-age=3600` leads to a miss on the third request -/
+theorem former_witnesses_now_refused :
+    (observe quoteLeakScenario).kind = .miss ∧
+    observeNotModified notModifiedScenario
+      [[110, 111, 45, 115, 116, 111, 114, 101, 44, 32, 109, 97, 120, 45, 97, 103, 101, 61, 51, 54, 48, 48]] = (.reval, .miss) := by decide
 
 /-! ### Non-vacuity -/
 
